@@ -437,7 +437,9 @@ def structure(value, depth=0):
     if isinstance(value, (bool, int, str)) or value is None:
         return value
     if isinstance(value, (float, np.floating)):
-        return float(value)
+        return "nan" if value != value else float(value)  # nan must compare equal to itself
+    if isinstance(value, (complex, np.complexfloating)):
+        return "nan" if value != value else complex(value)
     return type(value).__name__
 
 
